@@ -76,6 +76,13 @@ def gen_lines(ctx):
             #  srvbw: block-wise enabled, the request is a GET that asks for the size of the representation (Size2: 0)
             L.append("srvbw udp %s %s %d" % (rng.choice(["con", "non"]), v, c))
             L.append("srvbw tcp non %s %d" % (v, c))
+    #  srvh: the handler takes its request over (Hijack) and releases it to the pool before it responds (fire-and-forget
+    #        processing by another owner): the outcome must be that of `srv` - a confirmable request still gets its bare ACK
+    for c in gc:
+        for v in ("-", "2", "8", "16", "26"):
+            L.append("srvh udp con %s %d" % (v, c))
+            L.append("srvh udp non %s %d" % (v, c))
+            L.append("srvh tcp non %s %d" % (v, c))
     #  srvn: a handler that calls SetResponse several times (a result, then an error path; a default, then the real outcome):
     #        every call is judged on its own, and the wire must carry the response of the last call that was not refused
     nc = [69, 65, 68, 95, 132, 128, 160, 165, 0, 1, 224]
@@ -95,7 +102,7 @@ def dl(l):
     f = l.split()
     if f[0] == "srvreal":
         return "srv udp %s %s %s" % (f[2], f[3], f[4])
-    if f[0] in ("srvmux", "srvbw"):
+    if f[0] in ("srvmux", "srvbw", "srvh"):
         return "srv %s %s %s %s" % (f[1], f[2], f[3], f[4])
     if f[0] == "srvmw":
         return "is %s %s" % (f[4], f[3] if f[3] != "-" else "0")   # no option = nothing suppressed = value 0
